@@ -221,3 +221,15 @@ package phase2
 // the sanity panic of inHeadComponent fires exactly when the edge is not a tree edge
 //@ func networkSimplexProcessor.inHeadComponent
 //@   requires[|C01] p != nil && e != nil && e.IsInSpanningTree
+
+// exchange (C01): the two sanity panics fire exactly when the caller hands over the wrong kind of edge; the rest needs
+// a root node and what setCutValues needs
+//@ func networkSimplexProcessor.exchange
+//@   requires[|C01] p != nil && g != nil && e != nil && f != nil && e.IsInSpanningTree && !f.IsInSpanningTree
+//@   requires[|C01] len(g.Nodes) >= 1 && p.lim != nil && p.low != nil && edgeListOK(g)
+
+// feasibleTree (C01): needs a root node and what setCutValues needs. Two obligations stay open and are excluded from
+// the claim by description (props.json "except"): the keys of the node set returned by tightTree (recursive over two
+// maps, not under contract) are non-nil, and incidentNonTreeEdge finds an edge (needs connectivity of the component)
+//@ func networkSimplexProcessor.feasibleTree
+//@   requires[|C01] p != nil && g != nil && len(g.Nodes) >= 1 && p.lim != nil && p.low != nil && edgeListOK(g)
